@@ -64,3 +64,8 @@ func verifIsExpression(n Node) bool { return n.IsExpression() }
 // Dispositions of the map-range loops of this package: (*Map).SortedKeys#1 feeds a slice that is sorted by
 // source position (a total order on the keys of one literal) before it is used.
 //@ scan[C05.maploops.ast] C05 maprange ast: (*Map).SortedKeys#1
+
+// C14: the value of a String node and the path of an Import node are set when the node is built and never
+// written again (so the parser's token-advancing functions cannot change a validated path).
+//@ scan[C14.string.value.writers] C14 fieldwriters String.value: NewString NewTemplatedString
+//@ scan[C14.import.path.writers] C14 fieldwriters Import.path: NewImport
